@@ -68,13 +68,15 @@ def check_unsat(fs, timeout=None, model_vars=()):
     if r == z3.sat and not ufs:
         return 'sat', model_of(s.model()), time.time() - t0, 'z3'
     if ufs:
+        # the defining facts of the index maps, instantiated at every application
+        # that occurs in the formula (ground instances: no quantifiers)
         s = z3.Solver()
-        s.set('timeout', 5000)
-        s.add(*prims.uf_axioms())
+        s.set('timeout', int(min(timeout, 20) * 1000))
         s.add(*fs)
+        s.add(*ground_axioms(fs))
         r = s.check()
         if r == z3.unsat:
-            return 'unsat', None, time.time() - t0, 'z3+uf-axioms'
+            return 'unsat', None, time.time() - t0, 'z3+uf-ground-axioms'
     if ufs & {'ext_sym', 'wrapidx'}:
         # abstraction refinement: a non-unsat answer under the uninterpreted index
         # maps is re-solved with their definitions expanded at every application
@@ -106,6 +108,25 @@ def _apps(fs, names):
                 out.append(e)
             stack.extend(e.children())
     return out
+
+
+def ground_axioms(fs):
+    ax = []
+    for a in _apps(fs, {'ext_sym', 'wrapidx', 'ext_refl'}):
+        k, n = a.arg(0), a.arg(1)
+        nm = a.decl().name()
+        ax.append(z3.Implies(n >= 1, z3.And(a >= 0, a < n)))
+        ax.append(z3.Implies(z3.And(k >= 0, k < n), a == k))
+        if nm == 'ext_sym':
+            ax.append(z3.Implies(z3.And(k < 0, k >= -n), a == -1 - k))
+            ax.append(z3.Implies(z3.And(k >= n, k < 2 * n), a == 2 * n - 1 - k))
+        elif nm == 'wrapidx':
+            ax.append(z3.Implies(z3.And(k >= n, k < 2 * n), a == k - n))
+            ax.append(z3.Implies(z3.And(k >= -n, k < 0), a == k + n))
+        else:
+            ax.append(z3.Implies(z3.And(k < 0, k > -n), a == -k))
+            ax.append(z3.Implies(z3.And(k >= n, k < 2 * n - 1), a == 2 * (n - 1) - k))
+    return ax
 
 
 def ext_sym_def(k, n, Q):
